@@ -332,7 +332,7 @@ def parse_statement(lexer, toplevel=False):
 
 def parse_expression(lexer):
     if lexer.peekn(1, "if", "keyword"):
-        result = NodeIf(lexer.getPos())
+        result = NodeIf(lexer.getPosNext())
         while lexer.matchIf("if", "keyword") or lexer.matchIf(
             "elif", "keyword"
         ):
